@@ -35,7 +35,7 @@ echo "CONFIRM $NAME tests-with-change=$T demo-with-change=$DW demo-on-clean=$DC"
 ok=0; [ $T = pass ] && [ $DW = fail ] && [ $DC = pass ] && ok=1
 RES=""
 for CK in $CHECKS; do
-  OUT=$(VERIF_REPO="$D/repo" /verif/scripts/check.sh "$CK" quick 2>&1 | grep -E "^(VIOLATION|KNOWN|INCONCL)|sig=" | cut -c1-200)
+  OUT=$(VERIF_OUT_DIR="$D/out" VERIF_REPO="$D/repo" /verif/scripts/check.sh "$CK" quick 2>&1 | grep -E "^(VIOLATION|KNOWN|INCONCL)|sig=" | cut -c1-200)
   if echo "$OUT" | grep -q "^VIOLATION property=$CK"; then RES="$RES $CK:caught"; else RES="$RES $CK:MISSED"; fi
   echo "$OUT" | grep "sig=" | head -4
 done
